@@ -5,6 +5,7 @@ import (
 	"errors"
 	"fmt"
 	"iter"
+	"strings"
 	"sync"
 	"testing"
 	"testing/synctest"
@@ -655,7 +656,8 @@ func runDBScript(t *testing.T, sc Script, log *Log, next int) {
 			var ev Ev
 			msg, panicked := protect(func() { ev = st.exec(op) })
 			if panicked {
-				log.Emit(Ev{"op": "panic", "during": op.Op, "msg": msg, "ctx": op.Ctx})
+				log.Emit(Ev{"op": "panic", "during": op.Op, "msg": msg, "ctx": op.Ctx,
+					"graveyard": strings.Contains(msg, "graveyard") || strings.Contains(msg, "Double deletion")})
 				log.End(sc.ID)
 				ExitAfterPanic(log, next)
 			}
